@@ -21,6 +21,32 @@ Theorem C13_search_lists_params : forall s, Coh s -> wf_pairs (get_params s) ->
 Proof. exact search_lists_params. Qed.
 Print Assumptions C13_search_lists_params.
 
+(* assignments take effect. Right after url.search = v: search is '' or '?' + the assigned query and searchParams (handed
+   out before or obtained now) lists exactly its pairs, whatever a searchParams change had left behind; scheme, host,
+   fragment and path do not move *)
+Theorem C13_search_assignment_takes_effect : forall s v,
+  let q := fix_raw_query (trim_q v) in
+  get_search (set_search s v) = show_query q /\ get_params (set_search s v) = parse_raw q /\
+  scheme (set_search s v) = scheme s /\ host (set_search s v) = host s /\ fragment (set_search s v) = fragment s /\ upath (set_search s v) = upath s.
+Proof. exact search_assignment_takes_effect. Qed.
+Print Assumptions C13_search_assignment_takes_effect.
+
+(* right after an accepted url.href = v: the query of v as net/url parses it *)
+Theorem C13_href_assignment_takes_effect : forall parse_url lower norm_host clean_path s v s',
+  set_href parse_url lower norm_host clean_path s v = Some s' ->
+  exists sc h0 q0 f p0, parse_url v = Some (sc, h0, q0, f, p0) /\ scheme s' = sc /\ fragment s' = f /\
+    get_search s' = show_query (fix_raw_query q0) /\ get_params s' = parse_raw (fix_raw_query q0).
+Proof. exact href_assignment_takes_effect. Qed.
+Print Assumptions C13_href_assignment_takes_effect.
+
+(* right after a searchParams change f: the list is f of the list, and search (href prints the same synchronised URL) is that
+   list re-encoded *)
+Theorem C13_params_change_takes_effect : forall s f,
+  get_params (mutate s f) = f (get_params s) /\
+  get_search (mutate s f) = show_query (match f (get_params s) with [] => [] | l => serialize l end).
+Proof. exact params_change_takes_effect. Qed.
+Print Assumptions C13_params_change_takes_effect.
+
 (* href, toString() and toJSON() re-encode a stale query and print the same url.URL: one function of the state *)
 Theorem C13_serialisers_agree :
   href_syncs_then_prints = true /\ tostring_syncs_then_prints = true /\ tojson_syncs_then_prints = true /\
